@@ -67,7 +67,12 @@ def s1(ctx):
                     ok, why, wit = False, 'the shard index is not computed from self._hash(key)', fmt_trace(p.trace)
                 if not (keyarg is not None and keyarg.k == 'param' and keyarg.a[0] == 'key'):
                     ok, why, wit = False, 'the shard is called with a different key than the one hashed', fmt_trace(p.trace)
-        obs.append(Ob('S1', 'FanoutCache.%s' % name, ok and n > 0, why or 'no shard call found', f.loc(), wit))
+        # a method that mirrors a key-addressed Cache method must reach a shard; a new accessor that never touches the
+        # shard list (e.g. one that only reports the index) addresses nothing
+        mirrors = name in ctx.prog.classes['Cache'].methods
+        touches = any(isinstance(x, ast.Attribute) and x.attr == '_shards' for x in ast.walk(f.node))
+        obs.append(Ob('S1', 'FanoutCache.%s' % name, ok and (n > 0 or not (mirrors or touches)),
+                      why or 'no shard call found', f.loc(), wit))
         # operator forms stand for the same operator of the shard (a membership test that goes through get() counts as
         # a hit or miss and refreshes the access time / count)
         if name in ('__contains__', '__getitem__', '__setitem__', '__delitem__'):
@@ -303,7 +308,50 @@ def s4(ctx):
                   'the partial count carried by Timeout (timeout.args[0]) is not added to the total', f.loc()))
     obs.append(Ob('S4', 'FanoutCache._remove/retries-same-shard', okretry,
                   'after a Timeout the same shard is not retried: its remaining items are skipped', f.loc()))
+    # every attempt contributes exactly once: its result when it succeeded, the count carried by its Timeout when it
+    # did not - followed over two shards, so that a value left over from the previous shard is seen
+    okonce, nsum, wit = True, 0, None
+    for p in ctx.paths(ctx.method('FanoutCache', 'clear'), 'for2'):
+        if p.kind != 'return':
+            continue
+        calls = [e for e in p.trace if e.kind == 'CALL' and any(t.qual == 'core.Cache.clear' for t in e.d['targets'])]
+        if not calls:
+            continue
+        want_ret, want_exc = [], 0
+        for i, c in enumerate(calls):
+            end = calls[i + 1].seq if i + 1 < len(calls) else len(p.trace)
+            failed = any(e.kind == 'CATCH' and 'Timeout' in e.d['handler'] and c.seq < e.seq < end for e in p.trace)
+            if failed:
+                want_exc += 1
+            else:
+                want_ret.append(c.seq)
+        got_ret, got_exc, other = [], 0, []
+        for x in _summands(p.outcome[1]):
+            if x.k == 'ret':
+                got_ret.append(x.a[0])
+            elif x.k in ('item', 'field') and x.a[0].k == 'attr' and x.a[0].a[1] == 'args':
+                got_exc += 1
+            elif x.is_const and x.val == 0:
+                pass
+            else:
+                other.append(x)
+        nsum += 1
+        if sorted(got_ret) != sorted(want_ret) or got_exc != want_exc or other:
+            okonce, wit = False, fmt_trace(p.trace)
+    obs.append(Ob('S4', 'FanoutCache._remove/each-attempt-counted-once', okonce and nsum >= 4,
+                  'the total returned by clear/expire/evict/cull is not the sum of one contribution per attempt (the '
+                  'result of a successful call, the partial count of a timed-out one): a count is added twice, dropped, '
+                  'or carried over from the previous shard', f.loc(), wit))
     return obs
+
+
+def _summands(v):
+    if v.k == 'term' and v.a[0] == 'Add':
+        out = []
+        for x in v.a[1]:
+            out.extend(_summands(x))
+        return out
+    return [v]
 
 
 @rule('S5', floor=1, title='the total size limit is divided among the shards')
